@@ -118,7 +118,7 @@ def validate(rep, shapes, seed, budget_s):
     nexec = nnam = 0
     rnd = random.Random(seed)
     for sh in shapes:
-        parts = list(family.partitions(sh.slots))
+        parts = family.var_partitions(sh, 200)
         rnd.shuffle(parts)
         for part in parts[:6]:
             for bi in ([], [0]):
